@@ -4,7 +4,7 @@
 //!   tcp <prov> <end> <table> <conn> [<conn> ...]     conn = seg[@ms],seg[@ms],...
 //!   udp <prov> <table> <sock> [<sock> ...]           sock = dgram,dgram,...   (`_` = empty datagram)
 //! prov: b1 | b4 (BlockingIoProvider, two worker configurations), tk (Tokio, multi-thread
-//! runtime), tk1 (Tokio, current-thread runtime).   end: eof | idle | eofslow (half-close, but the client
+//! runtime), tk1 (Tokio, current-thread runtime); b1w | tkw: the same bound to 0.0.0.0, clients talking to 127.0.0.2.   end: eof | idle | eofslow (half-close, but the client
 //! reads nothing before it has sent everything).
 //! table = req=resp;req=none;...  — the response of Server::handle_message to each message
 //! alone, computed by this binary in `--table` mode when the case was generated; it is
@@ -104,9 +104,17 @@ impl Providers {
             return *a;
         }
         // The providers have no accessor for the bound address: pick free ports and retry on a clash.
+        // `<prov>w`: the same provider bound to the WILDCARD address 0.0.0.0 (the configuration in which the UDP socket
+        // learns the destination of each request from IP_PKTINFO and must answer FROM that address); the clients then
+        // talk to 127.0.0.2, an address routing would not pick as the reply source on its own.
+        let wild = prov.ends_with('w');
+        let base = prov.trim_end_matches('w');
+        let (bind_ip, contact_ip) =
+            if wild { (Ipv4Addr::UNSPECIFIED, Ipv4Addr::new(127, 0, 0, 2)) } else { (Ipv4Addr::LOCALHOST, Ipv4Addr::LOCALHOST) };
         for _ in 0..50 {
-            let tcp = SocketAddr::from((Ipv4Addr::LOCALHOST, free_port(true)));
-            let udp = SocketAddr::from((Ipv4Addr::LOCALHOST, free_port(false)));
+            let tcp = SocketAddr::from((bind_ip, free_port(true)));
+            let udp = SocketAddr::from((bind_ip, free_port(false)));
+            let prov = base;
             let ok = match prov {
                 "b1" | "b4" => {
                     let config = if prov == "b1" {
@@ -172,8 +180,8 @@ impl Providers {
                 _ => panic!("unknown provider {prov}"),
             };
             if ok {
-                let a = Addrs { tcp, udp };
-                self.started.insert(prov.to_string(), a);
+                let a = Addrs { tcp: SocketAddr::from((contact_ip, tcp.port())), udp: SocketAddr::from((contact_ip, udp.port())) };
+                self.started.insert(format!("{prov}{}", if wild { "w" } else { "" }), a);
                 // give listener threads a moment to reach accept/recv
                 std::thread::sleep(Duration::from_millis(30));
                 return a;
